@@ -2,7 +2,7 @@
 """Regenerates MANIFEST.json from the table below (single source of truth)."""
 import json, os
 V = os.path.dirname(os.path.dirname(os.path.abspath(__file__)))
-HOOK_COMMITS = []
+HOOK_COMMITS = ["8a4f2d3"]
 CHECKS = {
  "C01": dict(engine="tlc+replay+tracecheck", technique="TLA+ wire specification (OscWire.tla) model-checked by TLC; TLC-enumerated messages replayed into the real constructors/accessors; recorded observations trace-validated by TLC",
     text="OscWire.tla transcribes the OSC 1.0 wire rules; TLC checks Size=Len(Encode), 4-alignment and Decode(Encode(m))=m on every message of the generator (all type strings up to length 3 over the 17 symbols, boundary values, all address lengths mod 4) and emits each as a vector; the three real constructors and all accessors run on every vector and on seeded random messages (<=40 tags, <=64-byte addresses) in an ASan build, and TLC judges every logged observation against the specification",
@@ -16,6 +16,9 @@ CHECKS = {
  "C07": dict(engine="tlc+replay+tracecheck", technique="TLA+ decoder (OscWire.tla) as the independent OSC decoder; TLC enumerates mutated/small byte strings (OscMutate.tla); real validator and accessors run on each under ASan; observations trace-validated by TLC",
     text="TLC enumerates byte strings (all 1- and 2-step mutations of a pool of well-formed messages: truncation at every offset, every byte to boundary values, aligned words to extreme lengths, word insert/delete; every buffer up to length 8 over a small alphabet; every tail behind a fixed header) and the driver adds seeded structure-aware random mutants up to 512 bytes; each buffer is placed in an exact-size heap block against ASan's red zone; TLC judges no out-of-bounds read, termination, length in {0} u 1..n, and for accepted buffers decodability by the specification's decoder and equality of every accessor result with it",
     note="bounded enumeration + random mutation; ASan decides out-of-bounds reads; 2 s watchdog decides termination; padding content is not compared (lenient reference decoder)", ref="DESIGN.md 4 C07"),
+ "C06": dict(engine="tlc+replay+tracecheck", technique="TLA+ specification of the ring with one action per shared access (ThreadLink.tla), exhaustively model-checked by TLC with specification mutants; TLC behaviours forced on the real ThreadLink through guarded hook points (coroutine scheduler); recorded API histories (coroutine schedules and two real threads) trace-validated by TLC with interleaving search",
+    text="TLC visits every interleaving of writer and reader at the granularity of individual shared accesses for a small ring (quick: 6 cells, 4 writes incl. oversized, 4 polls incl. lookahead; thorough: 8 cells, 5 writes, 6 polls) and checks Fifo, LaFifo, HasNextExact, NoOverlap, Bounds; four specification mutants must violate the property invariants. Behaviours simulated by TLC are replayed into the real rtosc::ThreadLink: the hook before each shared access yields to a scheduler that follows the behaviour, and hook structure plus hasNext/read results are compared after every operation. API-level histories of random schedules on rings of 4..16 words and of two free-running OS threads (ticket-ordered) must be explainable by some interleaving of the specification",
+    note="sequential consistency (the code's seq_cst atomics); chunk-atomic copies justified by the NoOverlap invariant; weaker memory orders outside the model; a hook-structure mismatch degrades the replay to history validation and is reported, not failed", ref="DESIGN.md 4 C06"),
 }
 NOT_APPLICABLE = []
 def main():
